@@ -41,7 +41,7 @@ WORLD_NOTES = {
     "C05": ("other", "allocation protocol recorded by a global-allocator wrapper for every library call and checked by TLC (no free of a dead/unknown block, free/resize layout = allocation layout, no block left when all worlds are dropped), self-checking payloads on every read (type tag + checksum, poisoned quarantine for freed blocks), and process crashes inside safe calls recorded as events"),
     "C06": ("model_checking", "MCWorld Inv_C06 (every reachable store is accepted by deserialization; round trip preserves the map) + real round trips in 3 encodings with equality, content and lock-step twin checks"),
     "C10": ("model_checking", "MCWorld (2-world instance: Clone/CloneFrom preserve StoreInv and the map) + real clone/clone_from with content, token-freshness, frame and lock-step checks"),
-    "C11": ("exploration", "valid encodings of reachable worlds (serde_json text, serde_assert token streams human-readable and compact) are mutated structurally (numbers +-1/0/large incl. declared lengths, identifier bytes, entity index/generation, free-list entries, component values; token delete/duplicate/swap; field renames; element delete/duplicate) and deserialized; TLC requires: Err, or a world that passes StoreInv, identifier probes, ledger and heap checks immediately and under the random operations that follow in the same history"),
+    "C11": ("model_checking", "spec/Serde.tla: the deserializer's acceptance checks are sufficient (MCSerde: every accepted mutation of every reachable encoding decodes to a store satisfying StoreInv) and the real deserializer agrees with Accepts / Decode on structured mutations of real encodings; plus valid encodings of reachable worlds (serde_json text, serde_assert token streams human-readable and compact) are mutated structurally (numbers +-1/0/large incl. declared lengths, identifier bytes, entity index/generation, free-list entries, component values; token delete/duplicate/swap; field renames; element delete/duplicate) and deserialized; TLC requires: Err, or a world that passes StoreInv, identifier probes, ledger and heap checks immediately and under the random operations that follow in the same history"),
     "C13": ("model_checking", "MCWorld Inv_C13 exhaustively + StoreInv evaluated by TLC on the hook's dump of every live world after every event"),
     "C15": ("exploration", "resource addressing: get_mut / view_resources / query resource views in 14 subset-order-mutability variants, plus frame checks on every entity operation, clone and serde"),
     "C03": ("exploration", "a generated family of 132 queries (every view kind alone and pairwise, view order, identifier view, nested filters incl. views used as filters, World::entry queries, every super-view/sub-view pairing of query-time Entries, iteration combined with entry views) run against every world state the histories pass through; TLC evaluates the query on the reference map and compares result set/multiset, per-item values and tokens, Option-ness, writes, and size_hint brackets"),
@@ -98,6 +98,19 @@ def run_world_prop(prop, tier, seed, replay):
         mc = []
     else:
         mc = run_mc_world(tier) if prop in MC_INV else []
+        if prop in ("C11", "C06"):
+            key = content_key()
+            extra = cache_get("mcserde-" + tier, key) or []
+            if not extra:
+                cfgs = [("MCSerdePairs.cfg", "Serde.tla on every reachable store (1 world, <=2 creations): encoding accepted and decoded to the same store; every accepted single mutation and every accepted coordinated pair of mutations decodes to a store satisfying StoreInv")]
+                if tier == "thorough":
+                    cfgs.append(("MCSerde.cfg", "same, single mutations, <=3 creations (20 691 stores)"))
+                for cfg, desc in cfgs:
+                    r = tlc_mc("MCSerde.tla", cfg, os.path.join(WORK, "mc", cfg + ".meta"), workers=8, timeout=3000)
+                    extra.append({"cfg": cfg, "desc": desc, "ok": r["ok"], "generated": r["generated"], "distinct": r["distinct"],
+                                  "violated": r["violated"], "log": "-", "wall": r["wall"]})
+                cache_put("mcserde-" + tier, key, extra)
+            mc = (mc or []) + extra
         if prop == "C09":
             key = content_key()
             mc = cache_get("mcpar", key) or []
@@ -133,7 +146,7 @@ def run_world_prop(prop, tier, seed, replay):
     violations = [{"what": "%s (line %d of %s, op %s)" % (f["name"], f["line"], f["trace"], f["op"]),
                    "replay": f["replay"]} for f in viol]
     for m in mc:
-        if not m["ok"] and (m["violated"] in (MC_INV.get(prop), None) or prop == "C09"):
+        if not m["ok"] and (m["violated"] in (MC_INV.get(prop), None) or prop == "C09" or m["cfg"].startswith("MCSerde")):
             violations.append({"what": "model: %s violated in %s (%s)" % (m["violated"], m["cfg"], m["desc"]),
                                "replay": m["log"]})
     level, text = WORLD_NOTES[prop]
@@ -159,7 +172,8 @@ def run_world_prop(prop, tier, seed, replay):
         cov["states"] = sum(m["distinct"] for m in mc)
         cov["transitions"] = sum(m["generated"] for m in mc)
         cov["model_instances"] = [{k: m[k] for k in ("cfg", "desc", "distinct", "generated", "ok")} for m in mc]
-        cov["model_invariant"] = MC_INV.get(prop, "EveryRowOnce / NeverTwice / SlicesAgree")
+        cov["model_invariant"] = {"C09": "EveryRowOnce / NeverTwice / SlicesAgree", "C11": "Inv_C11 / Inv_C11_Pairs / Inv_RoundTrip (MCSerde)",
+                                  "C06": "Inv_C06 (MCWorld) + Inv_RoundTrip (MCSerde)"}.get(prop, MC_INV.get(prop))
     assumptions = [
         "the harness executes and logs faithfully (worlddrv); the brood_verif dump hook is read-only",
         "bounded: histories of the stated length, <=3 live worlds, <=~12 live entities per world",
